@@ -318,8 +318,8 @@ def rule_pipeline(ctx):
               "IterateSATGen passes %s" % args[1:], cs[0])
     F = Facts(it)
     ctx.check(F.assigns("backend_request") == ["block.build_backend_request()"], R, it, "request built here", "the request is built from this block", "backend_request is %s" % F.assigns("backend_request"))
-    res = [ast.unparse(s.value) for s in statements(it.node) if isinstance(s, ast.Assign) and dotted(s.targets[0]) == "result"]
-    ctx.check(res == ["list(map(lambda s: Gen.decode(block, s.assignment), solutions))"], R, it, "decode all", "every returned assignment is decoded with this block's layout",
+    res = [r for r in Facts(it).returns() if "Gen.decode" in r] + [a for v in ("result", "decoded_samples", "samples") for a in Facts(it).assigns(v) if "Gen.decode" in a]
+    ctx.check(bool(res) and all(r.replace("SamplingResult(", "").startswith("[Gen.decode(block, _b0.assignment) for _b0 in sample_non_uniform(") for r in res), R, it, "decode all", "every returned assignment is decoded with this block's layout",
               "IterateSATGen decodes as %s" % res)
     ug = ctx.fn("sampling_strategy.unigen:UniGen.sample")
     Fu = Facts(ug)
@@ -338,7 +338,7 @@ def rule_pipeline(ctx):
     gj = br.methods.get("get_cnfs_as_json")
     gr = br.methods.get("get_requests_as_generation_requests")
     ctx.require(gj is not None and gr is not None, "BackendRequest accessors not found")
-    ctx.check(Facts(gj).returns() == ["cnf_to_json(self.cnfs)"] and Facts(gr).returns() == ["list(map(lambda r: r.to_generation_request(), self.ll_requests))"], R, br, "accessors",
+    ctx.check(Facts(gj).returns() == ["cnf_to_json(self.cnfs)"] and Facts(gr).returns() == ["[_b0.to_generation_request() for _b0 in self.ll_requests]"], R, br, "accessors",
               "all clause sets and all requests of the backend request are handed over", "BackendRequest accessors changed")
     st = ctx.fn("main:synthesize_trials")
     body = ast.unparse(st.node)
